@@ -142,6 +142,9 @@ func (c18) Plan(tier string, seed int64) []mon.Workload {
 		{Name: "map-iteration", N: n / 10},
 		{Name: "slice-copy", N: int64(len(c18SliceForms) * len(c18SliceWrites)), Exhaustive: true},
 		{Name: "literal-fresh", N: int64(len(c18Literals) * len(c18LitWrites) * 2), Exhaustive: true},
+		{Name: "many-locals", N: manyLocalsN(), Exhaustive: true},
+		{Name: "computed-keys", N: int64(len(c04KeyStmts) * len(c04KeyWraps)), Exhaustive: true},
+		{Name: "operator-trees", N: n / 2},
 	}
 }
 
@@ -267,6 +270,18 @@ func (c18) build(c *mon.Ctx, workload string, i int64) c18Case {
 	}
 	if workload == "literal-fresh" {
 		return c18Case{Stmts: c18LiteralFresh(i), Cell: ""}
+	}
+	if workload == "many-locals" {
+		return c18Case{Stmts: manyLocalsProgram(i), Cell: ""}
+	}
+	if workload == "computed-keys" {
+		return c18Case{Stmts: c04ComputedKeys(i).Stmts, Cell: ""}
+	}
+	if workload == "operator-trees" {
+		// C02's expression trees (every leaf a probe, ill-typed operands
+		// included) on the v2 interpreter: both operands are evaluated, left
+		// to right, before an operator looks at their types
+		return c18Case{Stmts: c02{}.build(c, "trees", i).Stmts, Cell: ""}
 	}
 	g := gen.NewProg(c.R)
 	g.V2 = true
